@@ -790,19 +790,24 @@ func doReplay(path, prop string) int {
 		fmt.Printf("REPRODUCED %s: %s\n", keyDeadlock, what)
 		os.Exit(1)
 	})
-	rn := newRunner(h)
-	res := rn.run()
-	if res.Err != "" {
-		fmt.Println("harness error:", res.Err)
-		return 2
+	// a sequential history is deterministic except for Go's map iteration order (the scan of RemoteLogin, the sweeps of
+	// the cleanups): a failure that needs a particular order recurs within a few runs
+	const runs = 300
+	for k := 1; k <= runs; k++ {
+		rn := newRunner(h)
+		res := rn.run()
+		if res.Err != "" {
+			fmt.Println("harness error:", res.Err)
+			return 2
+		}
+		fs := judge(prop, h, res)
+		for _, f := range fs {
+			fmt.Printf("REPRODUCED %s (run %d of at most %d): %s\n", f.key, k, runs, f.what)
+		}
+		if len(fs) > 0 {
+			return 1
+		}
 	}
-	fs := judge(prop, h, res)
-	for _, f := range fs {
-		fmt.Printf("REPRODUCED %s: %s\n", f.key, f.what)
-	}
-	if len(fs) > 0 {
-		return 1
-	}
-	fmt.Println("not reproduced")
+	fmt.Printf("not reproduced in %d runs\n", runs)
 	return 0
 }
